@@ -33,7 +33,9 @@ class Env:
         p.setdefault('tier', self.tier)
         if self.single is not None:
             p['_single'] = self.single
-        return pool.run(module, p, nshards=nshards, libpath=self.lib(kw.pop('variant', 'asan')), **kw)
+        res = pool.run(module, p, nshards=nshards, libpath=self.lib(kw.pop('variant', 'asan')), **kw)
+        self.number_values_probed = getattr(self, 'number_values_probed', 0) + res.count('number_values_probed')
+        return res
 
 
 def write_evidence(prop, tier, seed, level, coverage, wall, violations, assumptions):
@@ -108,6 +110,8 @@ def main(argv=None):
     cov.setdefault('rule', '')
     cov.setdefault('samples', [])
     cov['known_findings_matched'] = known_hit
+    if getattr(env, 'number_values_probed', 0):
+        cov['always_on_number_probe_values_checked'] = env.number_values_probed
     cov['unlisted_violation_keys'] = unknown
     cov['inconclusive'] = out.get('inconclusive', [])
     if not args.replay and not os.environ.get('VP_NO_EVIDENCE'):
